@@ -7,6 +7,7 @@ import vlib
 FAMILY = {
     "C04": "fam_replay", "C05": "fam_replay",
     "C06": "fam_buffer", "C07": "fam_buffer",
+    "C08": "fam_bufsync",
     "C09": "fam_deadline",
     "C20": "fam_xor",
     "C15": "fam_filters", "C16": "fam_filters",
